@@ -141,9 +141,6 @@ Proof.
       symmetry. apply (testbit_small h 32); [exact Hh|lia].
 Qed.
 
-Lemma next_bits_5_lt : forall b, fst (next_bits b 5) < 32.
-Proof. intros b. apply (next_bits_lt b 5). Qed.
-
 Theorem setupDynamicHeader_spec : forall s s' e,
   LongCodesFit ->
   setupDynamicHeader s = (s', e) -> hdr_pre s ->
@@ -168,21 +165,19 @@ Proof.
   sproj.
   destruct (r_len b1 <? 14)%Z eqn:E14.
   { (* not enough bits *)
-    inversion H; subst s' e. split; [|intros Hc; discriminate]. unfold hdr_post. sproj.
+    injection H as Hs He; subst s' e. split; [|intros Hc; discriminate]. unfold hdr_post. sproj.
     destruct L2 as (L2a & L2b).
     split; [right; left; reflexivity|]. split; [exact L2a|]. split; [lia|]. split; [lia|].
     split; [exact L5|]. split; [exact Hclc0|].
     split; [intros _; split; [destruct L2b as [L2b|L2b]; [exact L2b|lia]|reflexivity]|].
     split; [intros Hc; discriminate|exact Hfr0]. }
-  destruct (next_bits b1 5) as [hlit b2] eqn:N1.
-  destruct (next_bits b2 5) as [hdist b3] eqn:N2.
-  destruct (next_bits b3 4) as [hclen b4] eqn:N3.
-  rewrite next_bits_eq in N1, N2, N3. inversion N1; subst hlit b2. inversion N2; subst hdist b3.
-  inversion N3; subst hclen b4. clear N1 N2 N3.
+  rewrite (next_bits_eq b1 5) in H. cbv beta iota zeta in H.
   set (hlit := N.land (r_bits b1) (N.ones 5)) in *.
   set (b2 := br_drop b1 5) in *.
+  rewrite (next_bits_eq b2 5) in H. cbv beta iota zeta in H.
   set (hdist := N.land (r_bits b2) (N.ones 5)) in *.
   set (b3 := br_drop b2 5) in *.
+  rewrite (next_bits_eq b3 4) in H. cbv beta iota zeta in H.
   set (hclen := N.land (r_bits b3) (N.ones 4)) in *.
   set (b4 := br_drop b3 4) in *.
   destruct (br_drop_ok 57 b1 5 L2 ltac:(lia)) as (D1 & D1a & D1b & D1c & D1d). fold b2 in D1, D1a, D1b, D1c, D1d.
@@ -193,7 +188,7 @@ Proof.
   assert (Hav4 : (avail b4 <= avail (rd s))%Z) by lia.
   assert (Hin4 : r_inlen b4 <= r_inlen (rd s)) by lia.
   destruct ((29 <? hlit) || (29 <? hdist) || (15 <? hclen)) eqn:Echk.
-  { inversion H; subst s' e. split; [|intros Hc; discriminate]. unfold hdr_post. sproj.
+  { injection H as Hs He; subst s' e. split; [|intros Hc; discriminate]. unfold hdr_post. sproj.
     split; [right; right; reflexivity|]. split; [exact (proj1 Hb4)|]. split; [lia|]. split; [exact Hav4|].
     split; [exact Hin4|]. split; [exact Hclc0|]. split; [intros Hc; discriminate|].
     split; [intros Hc; discriminate|exact Hfr0]. }
@@ -206,21 +201,21 @@ Proof.
   assert (Hfr3 : hdr_frame s s3).
   { eapply hdr_frame_trans; [exact Hfr0|]. apply same_outer_frame in CLso. exact CLso. }
   assert (Htb3 : tb s3 = tb s) by (destruct CLso as (_&_&Ht&_); exact Ht).
-  unfold s2 in CLav, CLin; sproj.
+  assert (Hrd2 : rd s2 = b4) by reflexivity. rewrite Hrd2 in CLav, CLin.
   destruct e3; try (exfalso; destruct CLe as [Hc|[Hc|Hc]]; discriminate).
   2:{ (* EEndInput from codeLenCodes *)
-    inversion H; subst s' e. split; [|intros Hc; discriminate]. unfold hdr_post.
+    injection H as Hs He; subst s' e. split; [|intros Hc; discriminate]. unfold hdr_post.
     split; [right; left; reflexivity|]. split; [exact CLbr|]. split; [lia|]. split; [lia|].
     split; [lia|]. split; [exact CLclc|]. split; [intros _; split; [apply CLend; reflexivity|exact Htb3]|].
     split; [intros Hc; discriminate|exact Hfr3]. }
-  2:{ inversion H; subst s' e. split; [|intros Hc; discriminate]. unfold hdr_post.
+  2:{ injection H as Hs He; subst s' e. split; [|intros Hc; discriminate]. unfold hdr_post.
     split; [right; right; reflexivity|]. split; [exact CLbr|]. split; [lia|]. split; [lia|].
     split; [lia|]. split; [exact CLclc|]. split; [intros Hc; discriminate|].
     split; [intros Hc; discriminate|exact Hfr3]. }
   destruct (CLok eq_refl) as (CLok1 & CLok2).
   destruct (readLitDistLens s3 hdist hlit) as [s4 e4] eqn:ERL.
   pose proof (readLitDistLens_spec s3 hdist hlit s4 e4 ERL Hhdist Hhlit CLbr CLok2 CLclc) as RL.
-  unfold s2 in CLh, CLlc, CLdc, CLex; sproj.
+  assert (Hd2 : dyn s2 = d0) by reflexivity. rewrite Hd2 in CLh, CLlc, CLdc, CLex.
   specialize (RL CLh CLlc CLdc CLex).
   destruct RL as (RLe & RLbr & RLend & RLav & RLin & RLlo & RLpost & RLso & RLcs & RLcg & RLcl & RLnc & RLlh).
   assert (Hfr4 : hdr_frame s s4).
@@ -228,20 +223,136 @@ Proof.
   assert (Htb4 : tb s4 = tb s) by (destruct RLso as (_&_&Ht&_); congruence).
   assert (Hclc4 : clc_ok (dyn s4)) by (unfold clc_ok in *; rewrite RLcs; exact CLclc).
   destruct e4; try (exfalso; destruct RLe as [Hc|[Hc|Hc]]; discriminate).
-  2:{ inversion H; subst s' e. split; [|intros Hc; discriminate]. unfold hdr_post.
+  2:{ injection H as Hs He; subst s' e. split; [|intros Hc; discriminate]. unfold hdr_post.
     split; [right; left; reflexivity|]. split; [exact RLbr|]. split; [lia|]. split; [lia|].
     split; [lia|]. split; [exact Hclc4|]. split; [intros _; split; [apply RLend; reflexivity|exact Htb4]|].
     split; [intros Hc; discriminate|exact Hfr4]. }
-  2:{ inversion H; subst s' e. split; [|intros Hc; discriminate]. unfold hdr_post.
+  2:{ injection H as Hs He; subst s' e. split; [|intros Hc; discriminate]. unfold hdr_post.
     split; [right; right; reflexivity|]. split; [exact RLbr|]. split; [lia|]. split; [lia|].
     split; [lia|]. split; [exact Hclc4|]. split; [intros Hc; discriminate|].
     split; [intros Hc; discriminate|exact Hfr4]. }
   specialize (RLpost eq_refl). destruct RLpost as (RPlit & RPdist).
   destruct (r_len (rd s4) <? 0)%Z eqn:Eneg.
-  { inversion H; subst s' e. split; [|intros Hc; discriminate]. unfold hdr_post.
+  { injection H as Hs He; subst s' e. split; [|intros Hc; discriminate]. unfold hdr_post.
     split; [right; left; reflexivity|]. split; [exact RLbr|]. split; [lia|]. split; [lia|].
     split; [lia|]. split; [exact Hclc4|].
     split; [intros _; split; [destruct RLbr as (_&_&R3); apply R3; lia|exact Htb4]|].
     split; [intros Hc; discriminate|exact Hfr4]. }
-  Show.
-Abort.
+  set (h4 := litAndDistHuff (dyn s4)) in *.
+  set (dc4 := distCount (dyn s4)) in *.
+  destruct RPdist as (RD1 & RD2 & RD3).
+  destruct (setCodes h4 litLen distLen dc4) as [huff bad] eqn:ESC.
+  destruct (setCodes_spec h4 litLen distLen dc4 huff bad ESC RD1) as (SC1 & SC2).
+  assert (Hclc5 : forall hf, clc_ok (set_dyn_huff (dyn s4) hf)) by (intros hf; exact Hclc4).
+  destruct bad.
+  { injection H as Hs He; subst s' e. split; [|intros Hc; discriminate]. unfold hdr_post. sproj.
+    split; [right; right; reflexivity|]. split; [exact RLbr|]. split; [lia|]. split; [lia|].
+    split; [lia|]. split; [apply Hclc5|]. split; [intros Hc; discriminate|].
+    split; [intros Hc; discriminate|exact Hfr4]. }
+  set (codes := forN 0 distLen (fun (i : N) (t : arr) => aset t i (aget huff (litLen + i))) aempty) in *.
+  assert (Hcodes : forall j, aget codes j = if j <? distLen then aget huff (litLen + j) else 0).
+  { intros j. unfold codes. rewrite copy_from_spec. rewrite aget_empty. reflexivity. }
+  assert (Hpre : small_pre codes dc4 30).
+  { unfold small_pre. split; [|split; [|split]].
+    - intros i. rewrite Hcodes. destruct (i <? distLen); [apply SC1|]. unfold hc_len. cbn. lia.
+    - intros i. rewrite Hcodes. destruct (i <? distLen); [apply SC1|lia].
+    - intros l Hl. rewrite (RD2 l Hl). change (N.to_nat 30) with 30%nat.
+      apply count_len_ext. intros k Hk. rewrite Hcodes.
+      replace (0 + N.of_nat k <? distLen) with true by (unfold distLen; lia).
+      rewrite SC2. replace (litLen + (0 + N.of_nat k)) with (286 + N.of_nat k) by (unfold litLen; lia). reflexivity.
+    - exact RD3. }
+  destruct Htb as (T1 & T2 & T3 & T4).
+  rewrite Htb4 in H.
+  destruct (gen_small false (distShort (tb s)) (distLong (tb s)) codes distLen dc4 distLen)
+    as [[[dsh dlg] codes'] gerr] eqn:EGS.
+  destruct (gen_small_dist_safe _ _ _ _ _ _ _ _ EGS Hpre T3 T4) as (GS1 & GS2 & GS3).
+  set (huff2 := forN 0 distLen (fun (i : N) (t : arr) => aset t (litLen + i) (aget codes' i)) huff) in *.
+  assert (Hh2 : forall j, aget huff2 j < 4294967296 /\ hc_len (aget huff2 j) = hc_len (aget h4 j)).
+  { intros j. unfold huff2. rewrite copy_to_spec.
+    destruct ((litLen <=? j) && (j <? litLen + distLen)) eqn:Ej.
+    - destruct (GS3 (j - litLen)) as (G1 & G2). split; [exact G1|]. rewrite G2, Hcodes.
+      replace (j - litLen <? distLen) with true by lia.
+      replace (litLen + (j - litLen)) with j by lia. apply SC2.
+    - split; [apply SC1|apply SC2]. }
+  destruct (negb (ierr_eqb gerr ENone)) eqn:Egerr.
+  { assert (gerr = EInvalidBlock) by (destruct GS1 as [->| ->]; [discriminate|reflexivity]). subst gerr.
+    injection H as Hs He; subst s' e. split; [|intros Hc; discriminate]. unfold hdr_post. sproj.
+    split; [right; right; reflexivity|]. split; [exact RLbr|]. split; [lia|]. split; [lia|].
+    split; [lia|]. split; [exact Hclc4|]. split; [intros Hc; discriminate|].
+    split; [intros Hc; discriminate|exact Hfr4]. }
+  assert (gerr = ENone) by (destruct gerr; try discriminate; reflexivity). subst gerr.
+  destruct (GS2 eq_refl) as (GS2a & GS2b).
+  set (d5 := set_dyn_huff (set_dyn_huff (dyn s4) huff) huff2) in *.
+  assert (RP5 : rl_post_lit (litAndDistHuff d5) (litCount d5) (litExpandCount d5)).
+  { unfold d5; sproj. apply (rl_post_lit_ext h4); [exact RPlit| |].
+    - intros j. destruct (Hh2 j) as (A & B). split; [exact A|]. rewrite B. apply RD1.
+    - intros j. apply Hh2. }
+  destruct (setAndExpandLitLenHuffCode d5) as [d6 e6] eqn:ESE.
+  destruct (setAndExpand_spec d5 d6 e6 ESE RP5) as (SE1 & SE2 & SE3 & SE4 & SE5).
+  assert (Hclc6 : clc_ok d6).
+  { unfold clc_ok. rewrite SE3. exact Hclc4. }
+  destruct e6; try (exfalso; destruct SE1 as [Hc|Hc]; discriminate).
+  2:{ injection H as Hs He; subst s' e. split; [|intros Hc; discriminate]. unfold hdr_post. sproj.
+    split; [right; right; reflexivity|]. split; [exact RLbr|]. split; [lia|]. split; [lia|].
+    split; [lia|]. split; [exact Hclc6|]. split; [intros Hc; discriminate|].
+    split; [intros Hc; discriminate|exact Hfr4]. }
+  specialize (SE2 eq_refl).
+  pose proof (HLF d5 d6 RP5 ESE) as Hfit.
+  destruct (genForLitLen (litShort (tb s)) (litLong (tb s)) d6 multisym) as [[[lsh llg] d7] e7] eqn:EGL.
+  destruct (genForLitLen_spec _ _ _ _ _ _ _ _ EGL SE2 Hfit T1 T2) as (GL1 & GL2 & GL3 & GL4 & GL5).
+  subst e7.
+  injection H as Hs He; subst s' e. split; [|intros _; reflexivity]. unfold hdr_post. sproj.
+  split; [left; reflexivity|]. split; [exact RLbr|]. split; [lia|]. split; [lia|].
+  split; [lia|]. split; [unfold clc_ok; rewrite GL4; exact Hclc6|]. split; [intros Hc; discriminate|].
+  split; [|exact Hfr4].
+  intros _. split; [lia|]. unfold tabs_ok; sproj. split; [exact GL2|]. split; [exact GL3|]. split; assumption.
+Qed.
+
+Lemma u8_small : forall x, x < 256 -> u8 x = x.
+Proof. intros x H. unfold u8. change 255 with (N.ones 8). rewrite N.land_ones. apply N.mod_small. exact H. Qed.
+
+Theorem prepareForLitBlock_spec : forall s s' e,
+  prepareForLitBlock s = (s', e) -> br_inv (rd s) -> (0 <= r_len (rd s))%Z ->
+  (e = ENone \/ e = EEndInput \/ e = EInvalidBlock) /\
+  br_inv (rd s') /\ (0 <= r_len (rd s'))%Z /\
+  (avail (rd s') <= avail (rd s))%Z /\ r_inlen (rd s') <= r_inlen (rd s) /\
+  (e = EEndInput -> r_inlen (rd s') = 0) /\
+  (e = ENone -> phase s' = phaseLitBlock /\ (r_len (rd s') mod 8 = 0)%Z /\
+                (avail (rd s') + 32 <= avail (rd s))%Z) /\
+  tb s' = tb s /\ dyn s' = dyn s /\ bfinal s' = bfinal s /\ hdr_frame s s'.
+Proof.
+  intros s s' e H Hbr Hlen. unfold prepareForLitBlock, loadBits in H.
+  destruct (load_lt57_spec (rd s) Hbr) as (b1 & L1 & L2 & L3 & L4 & L5). rewrite L1 in H.
+  sproj. destruct L2 as (L2a & L2b). pose proof L2a as (I1 & I2 & I3).
+  destruct (r_len b1 <? 0)%Z eqn:Eneg; [lia|].
+  set (bl := Z.to_N (r_len b1)) in *.
+  assert (Hbl : Z.of_N bl = r_len b1) by (unfold bl; lia).
+  assert (Hbl8 : bl / 8 < 9) by (apply N.div_lt_upper_bound; lia).
+  assert (Hm : 8 * (bl / 8) <= bl) by (apply N.mul_div_le; lia).
+  rewrite (u8_small (bl / 8)) in H by lia.
+  assert (Hfr : forall b, hdr_frame s (set_rd s b)) by (intros b; unfold hdr_frame; repeat split; reflexivity).
+  destruct (bl / 8 <? 4) eqn:E4.
+  { injection H as Hs He; subst s' e. sproj.
+    split; [right; left; reflexivity|]. split; [exact L2a|]. split; [lia|]. split; [lia|]. split; [lia|].
+    split; [intros _; destruct L2b as [L2b|L2b]; [exact L2b|lia]|].
+    split; [intros Hc; discriminate|]. split; [reflexivity|]. split; [reflexivity|]. split; [reflexivity|apply Hfr]. }
+  set (by8 := bl / 8) in *.
+  assert (Hrest : (by8 * 8 - 32) mod 8 = 0).
+  { replace (by8 * 8 - 32) with ((by8 - 4) * 8) by lia. apply N.mod_mul. lia. }
+  destruct (negb (N.land (N.shiftr (r_bits b1) (bl mod 8)) 65535 =?
+                  65535 - N.land (N.shiftr (N.shiftr (r_bits b1) (bl mod 8)) 16) 65535)) eqn:Elen.
+  { injection H as Hs He; subst s' e. sproj. unfold br_inv, avail; cbn [r_len r_in r_inlen].
+    split; [right; right; reflexivity|]. split; [split; [exact I1|split; [lia|intros; lia]]|].
+    split; [lia|]. split; [lia|]. split; [lia|]. split; [intros Hc; discriminate|].
+    split; [intros Hc; discriminate|]. split; [reflexivity|]. split; [reflexivity|]. split; [reflexivity|].
+    unfold hdr_frame; repeat split; reflexivity. }
+  rewrite Hrest in H. cbn [N.eqb] in H. cbv beta iota zeta in H.
+  injection H as Hs He; subst s' e. sproj. unfold br_inv, avail; cbn [r_len r_in r_inlen].
+  split; [left; reflexivity|]. split; [split; [exact I1|split; [lia|intros; lia]]|].
+  split; [lia|]. split; [lia|]. split; [lia|]. split; [intros Hc; discriminate|].
+  split.
+  { intros _. split; [reflexivity|]. split; [|lia].
+    replace (Z.of_N (by8 * 8 - 32)) with ((Z.of_N by8 - 4) * 8)%Z by lia. apply Z.mod_mul. lia. }
+  split; [reflexivity|]. split; [reflexivity|]. split; [reflexivity|].
+  unfold hdr_frame; repeat split; reflexivity.
+Qed.
